@@ -22,11 +22,20 @@ a model of `encoding/csv`'s Writer and an RFC 4180 reader.
 SOME terminal state of the program on the input files `datas` under tuning `cfg` (reader concurrency,
 channel capacities, worker count, batch size, flush-timer behaviour), for SOME schedule.
 
-Not covered by a theorem (correspondence only, `extra/C03.py`): `analyze` (float Welford recurrence is
-order sensitive in the last bits; C07 `welford_exact` is the exact-arithmetic statement), `reduce` with
-several sources (any accumulator is covered for one source and one worker), and `spark`, whose renders
-TRIM the table: with a value-ordered column sort the result depends on render timing (F24, known finding,
-reproduced by `extra/C03.py`); the theorems below speak about aggregators whose renders only read.
+Later sections: `rare reduce` on the `AccumulatingGroup` model of C07 (`Model/C03Reduce.lean`: set-up, the CSV
+writer with its reused row buffer, the render script, exit status) – any accumulator for one source and one
+worker, order-insensitive accumulators for any tuning, CSV round trip; `rare analyze` on the binary64 model of
+`MatchNumerical` (`Model/C03Analyze.lean`) – everything it prints except `Mean:`/`StdDev:` is exactly order
+independent, those two only in exact arithmetic (known finding F26 with a kernel-checked counterexample); the
+wiring of all seven commands regenerated from the Go AST (`Gen/C03.lean`), with the CSV determinism theorems
+instantiated for the sorter each writer names in the source.
+
+Not covered by a theorem (correspondence only, `extra/C03.py` / the in-process `reduce` and `analyze` ops):
+`reduce` with ORDER-SENSITIVE accumulators over several sources (the pipeline LTS lets sources start in any order;
+one source and one worker is covered), `spark`, whose renders TRIM the table: with a value-ordered column sort the
+result depends on render timing (F24, known finding); the padding of the final frame (F25, known finding: the
+snapshot is claimed modulo runs of spaces); the inferring sorters `contextual` / `date` of the render callbacks
+(C13, F19).
 -/
 namespace Rare.C03
 open Rare.C07 Rare.C13 Rare.Pipeline Rare.C01
@@ -352,12 +361,14 @@ and sort definitions – order-sensitive ones included, e.g. `last={2}` or `cat=
 whatever batch size, channel depths, flush-timer behaviour and schedule, the sample history is the input order
 (C02 `fifo_order`), so the run is refused (an expression panics) in both cases or accepted in both with THE SAME
 aggregator; and the complete result of `rare reduce` – final render, `--csv` text, exit status – is the same for
-every order in which Go ranges over the map. -/
+every order in which Go ranges over the map.  `less` is the pure comparison the render callback's sorter denotes
+(`ByContextual()` is one under C13 `contextual_partial`); `--sort-reverse` (`Reverse` = `!less a b`, not a strict
+order) is covered: on the distinct keys of a map it sorts like the flipped order (`groupsWith_reverse`). -/
 theorem reduce_fifo_deterministic (cls : Line → Cls) (key : Line → Bytes) (data : Bytes)
     (cfg₁ cfg₂ : Config) (hW₁ : cfg₁.W = 1) (hW₂ : cfg₂.W = 1) (h₁ h₂ : List Bytes) (c₁ c₂ : Counters)
     (t₁ : TerminalC cls key cfg₁ [data] h₁ c₁) (t₂ : TerminalC cls key cfg₂ [data] h₂ c₂)
     (a : ReduceArgs) (maxKeylen : Nat) (s0 : AccGroup) (h0 : AccReach s0)
-    (less : Bytes → Bytes → Bool) (hlt : C07.StrictTotal (reduceSorter a less))
+    (less : Bytes → Bytes → Bool) (hlt : C07.StrictTotal less)
     (ord₁ ord₂ : AccGroup → List Bytes) (hord₁ : ∀ s, AccReach s → IsRangeOf (ord₁ s) s.data) (hord₂ : ∀ s, AccReach s → IsRangeOf (ord₂ s) s.data)
     (readErrors : Int) :
     h₁ = refSamples cls key [data] ∧ h₂ = h₁ ∧ c₁ = refCounters cls [data] ∧ c₂ = c₁ ∧ s0.run h₁ = s0.run h₂ ∧
@@ -388,7 +399,7 @@ theorem reduce_commutative_schedule_independent (cls : Line → Cls) (key : Line
     (a : ReduceArgs) (maxKeylen : Nat) (s0 : AccGroup) (h0 : AccReach s0) (hempty : s0.data = [])
     (hcomm : RowComm s0.specCols)
     (s₁ s₂ : AccGroup) (r₁ : s0.run h₁ = .ok s₁) (r₂ : s0.run h₂ = .ok s₂)
-    (less : Bytes → Bytes → Bool) (hlt : C07.StrictTotal (reduceSorter a less))
+    (less : Bytes → Bytes → Bool) (hlt : C07.StrictTotal less)
     (ord₁ ord₂ : AccGroup → List Bytes) (hord₁ : ∀ s, AccReach s → IsRangeOf (ord₁ s) s.data) (hord₂ : ∀ s, AccReach s → IsRangeOf (ord₂ s) s.data)
     (readErrors : Int) :
     h₁.Perm h₂ ∧ c₁ = refCounters cls datas ∧ c₂ = c₁ ∧
@@ -539,7 +550,7 @@ example : (match exReduce.run [[98, 0, 55], [97, 0, 45, 50], [98, 0, 53]] with
     some [107, 44, 116, 44, 110, 44, 109, 10, 97, 44, 45, 50, 44, 49, 44, 45, 50, 10, 98, 44, 49, 50, 44, 50, 44, 55, 10] := by
   decide +kernel
 example : ∃ gs, exReduce.groupsWith bLt [[98], [97]] = .ok gs := ⟨_, rfl⟩
-example : C07.StrictTotal (reduceSorter {} bLt) := bLt_strictTotal
+example : C07.StrictTotal bLt := bLt_strictTotal
 example : ∀ s, AccReach s → IsRangeOf (akeys s.data) s.data :=
   fun _ h => ⟨reach_keys_nodup h, fun _ => mem_akeys_iff _ _⟩
 /-- the set-up of `reduce -g k={1} -a n:7={1}` with a compiler that knows the template `{1}` only -/
